@@ -12,43 +12,44 @@ def imports (t : Sheet) : Sheet := t.filter Rule.isImport
 def body (t : Sheet) : Sheet := t.filter Rule.isBody
 def hasNs (t : Sheet) : Bool := t.any Rule.isNs
 def hasCharset (t : Sheet) : Bool := t.any Rule.isCharset
-/-- `keepimport`: some rule is not a comment, style rule or @import -/
+/-- `keepimport`: some rule is not a comment or style rule -/
 def hasHard (t : Sheet) : Bool := t.any (fun x => !x.canWrap)
 
 /-! ### the traversal -/
 
 /-- what a sheet contributes to a flat sheet -/
 structure Sum where
-  raises : Bool        -- HierarchyRequestErr
   imps : List Rule     -- @import rules left
   ns : Bool            -- some @namespace rule
   body : List Rule
   deriving Repr
 
-def Sum.hard (s : Sum) : Bool := s.ns || s.body.any (fun x => !x.canWrap)
+/-- the flat sheet holds something that is not a comment or style rule: an @namespace rule, an @import
+rule that was left, or such a body rule -/
+def Sum.hard (s : Sum) : Bool := s.ns || !s.imps.isEmpty || s.body.any (fun x => !x.canWrap)
 
-/-- a loaded @import is kept as a rule when the nested call raised HierarchyRequestErr, or when it is
-media-restricted and its flat sheet holds something that is not a comment, style rule or @import -/
-def Sum.keptAs (s : Sum) (q : Nat) : Bool := s.raises || (q != 0 && s.hard)
+/-- a loaded @import is kept as a rule when it is media-restricted and its flat sheet holds something
+that is not a comment or style rule -/
+def Sum.keptAs (s : Sum) (q : Nat) : Bool := q != 0 && s.hard
 
-def Sum.nil : Sum := ⟨false, [], false, []⟩
-def Sum.app (a b : Sum) : Sum := ⟨a.raises || b.raises, a.imps ++ b.imps, a.ns || b.ns, a.body ++ b.body⟩
+def Sum.nil : Sum := ⟨[], false, []⟩
+def Sum.app (a b : Sum) : Sum := ⟨a.imps ++ b.imps, a.ns || b.ns, a.body ++ b.body⟩
 
 mutual
 def Rule.sum : Rule → Sum
   | .charset _ => .nil
-  | .ns _ _ => ⟨false, [], true, []⟩
-  | .imp id q none => ⟨false, [.imp id q none], false, []⟩
+  | .ns _ _ => ⟨[], true, []⟩
+  | .imp id q none => ⟨[.imp id q none], false, []⟩
   | .imp id q (some sub) =>
     let s := sumL sub
-    if s.keptAs q then ⟨false, [.imp id q (some sub)], false, [.start id]⟩
-    else if q = 0 then ⟨false, s.imps, s.ns, .start id :: s.body⟩
-    else ⟨!s.imps.isEmpty, [], false, [.start id, .media q s.body]⟩
-  | .media q rs => ⟨false, [], false, [.media q rs]⟩
-  | .comment i => ⟨false, [], false, [.comment i]⟩
-  | .start i => ⟨false, [], false, [.start i]⟩
-  | .style i u => ⟨false, [], false, [.style i u]⟩
-  | .block k i => ⟨false, [], false, [.block k i]⟩
+    if s.keptAs q then ⟨[.imp id q (some sub)], false, [.start id]⟩
+    else if q = 0 then ⟨s.imps, s.ns, .start id :: s.body⟩
+    else ⟨[], false, [.start id, .media q s.body]⟩
+  | .media q rs => ⟨[], false, [.media q rs]⟩
+  | .comment i => ⟨[], false, [.comment i]⟩
+  | .start i => ⟨[], false, [.start i]⟩
+  | .style i u => ⟨[], false, [.style i u]⟩
+  | .block k i => ⟨[], false, [.block k i]⟩
 def sumL : List Rule → Sum
   | [] => .nil
   | r :: rs => r.sum.app (sumL rs)
@@ -368,42 +369,42 @@ theorem wrapAll_none : ∀ (rs k : Sheet), wrapAll k rs = none → rs.any Rule.m
       simp [hf, wrapAll_none rs _ h]
 
 theorem hasHard_eq : ∀ (t : Sheet),
-    hasHard t = (hasNs t || (body t).any (fun x => !x.canWrap) || hasCharset t)
+    hasHard t = (hasNs t || !(imports t).isEmpty || (body t).any (fun x => !x.canWrap) || hasCharset t)
   | [] => rfl
   | r :: rs => by
     have ih := hasHard_eq rs
     unfold hasHard at ih ⊢
-    rw [List.any_cons, ih, hasNs_cons, hasCharset_cons, body_cons]
+    rw [List.any_cons, ih, hasNs_cons, hasCharset_cons, body_cons, imports_cons]
     cases r <;> simp [Rule.canWrap, Rule.isNs, Rule.isBody, Rule.isCharset, Rule.isImport] <;>
-      cases hasNs rs <;> cases hasCharset rs <;> simp
+      cases hasNs rs <;> cases hasCharset rs <;> cases (imports rs).isEmpty <;> simp
 
-/-- among rules that are comments, style rules or @imports, @media refuses exactly the @imports -/
+/-- a sheet of comments and style rules: @media refuses none of them, and there is no @import -/
 theorem forbids_of_canWrap : ∀ (t : Sheet), hasHard t = false →
-    t.any Rule.mediaForbids = !(imports t).isEmpty ∧ ((imports t) = [] → body t = t)
+    t.any Rule.mediaForbids = false ∧ imports t = [] ∧ body t = t
   | [], _ => by simp [imports, body]
   | r :: rs, h => by
     unfold hasHard at h
     rw [List.any_cons, Bool.or_eq_false_iff] at h
-    obtain ⟨ih1, ih2⟩ := forbids_of_canWrap rs (by unfold hasHard; exact h.2)
+    obtain ⟨ih1, ih2, ih3⟩ := forbids_of_canWrap rs (by unfold hasHard; exact h.2)
     have h1 := h.1
-    rw [List.any_cons, ih1, imports_cons, body_cons]
+    rw [List.any_cons, ih1, imports_cons, body_cons, ih2, ih3]
     cases r <;> simp [Rule.canWrap] at h1 <;>
-      simp [Rule.mediaForbids, Rule.isImport, Rule.isBody, Rule.isCharset, Rule.isNs] <;> exact ih2
+      simp [Rule.mediaForbids, Rule.isImport, Rule.isBody, Rule.isCharset, Rule.isNs]
 
 
 /-! ### one rule, one sheet, the whole tree -/
 
-/-- the outcome `res` of processing something whose traversal is `S`, starting from the target `t0` -/
+/-- the outcome `res` of processing something whose traversal is `S`, starting from the target `t0`;
+HierarchyRequestErr is not among the outcomes -/
 def Good (res : Res) (t0 : Sheet) (S : Sum) : Prop :=
   match res with
-  | .ok t => S.raises = false ∧ imports t = imports t0 ++ S.imps ∧ body t = body t0 ++ S.body ∧
+  | .ok t => imports t = imports t0 ++ S.imps ∧ body t = body t0 ++ S.body ∧
       hasNs t = (hasNs t0 || S.ns) ∧ hasCharset t = false
-  | .raised .hierarchy => S.raises = true
+  | .raised .hierarchy => False
   | .raised .noModification => True
   | .raised .fuel => False
 
 theorem good_liftAdd (t0 t1 : Sheet) (r : Rule) (S : Sum) (hc : hasCharset t1 = false) (hr : r.isCharset = false)
-    (hraise : S.raises = false)
     (hi : imports t1 ++ (if r.isImport then [r] else []) = imports t0 ++ S.imps)
     (hb : body t1 ++ (if r.isBody then [r] else []) = body t0 ++ S.body)
     (hn : (hasNs t1 || r.isNs) = (hasNs t0 || S.ns)) :
@@ -413,7 +414,7 @@ theorem good_liftAdd (t0 t1 : Sheet) (r : Rule) (S : Sum) (hc : hasCharset t1 = 
   | some t2 =>
     obtain ⟨a1, a2, a3, a4⟩ := add_spec t1 r t2 ha
     simp only [liftAdd, Good]
-    exact ⟨hraise, by rw [a1, hi], by rw [a2, hb], by rw [a3, hn], by rw [a4 hr, hc]⟩
+    exact ⟨by rw [a1, hi], by rw [a2, hb], by rw [a3, hn], by rw [a4 hr, hc]⟩
 
 theorem add_start (t : Sheet) (i : Nat) : add t (.start i) = some (t ++ [.start i]) := rfl
 
@@ -424,27 +425,27 @@ theorem step_good (rec : Sheet → Res) (t0 : Sheet) (r : Rule) (hc : hasCharset
   | charset e => simp [step, Good, Rule.sum, Sum.nil, hc]
   | ns p u =>
     simp only [step, Rule.sum]
-    exact good_liftAdd t0 t0 _ _ hc rfl rfl (by simp [Rule.isImport]) (by simp [Rule.isBody, Rule.isNs]) (by simp [Rule.isNs])
+    exact good_liftAdd t0 t0 _ _ hc rfl (by simp [Rule.isImport]) (by simp [Rule.isBody, Rule.isNs]) (by simp [Rule.isNs])
   | media q rs =>
     simp only [step, Rule.sum]
-    exact good_liftAdd t0 t0 _ _ hc rfl rfl (by simp [Rule.isImport]) (by simp [Rule.isBody, Rule.isNs, Rule.isCharset, Rule.isImport]) (by simp [Rule.isNs])
+    exact good_liftAdd t0 t0 _ _ hc rfl (by simp [Rule.isImport]) (by simp [Rule.isBody, Rule.isNs, Rule.isCharset, Rule.isImport]) (by simp [Rule.isNs])
   | comment i =>
     simp only [step, Rule.sum]
-    exact good_liftAdd t0 t0 _ _ hc rfl rfl (by simp [Rule.isImport]) (by simp [Rule.isBody, Rule.isNs, Rule.isCharset, Rule.isImport]) (by simp [Rule.isNs])
+    exact good_liftAdd t0 t0 _ _ hc rfl (by simp [Rule.isImport]) (by simp [Rule.isBody, Rule.isNs, Rule.isCharset, Rule.isImport]) (by simp [Rule.isNs])
   | start i =>
     simp only [step, Rule.sum]
-    exact good_liftAdd t0 t0 _ _ hc rfl rfl (by simp [Rule.isImport]) (by simp [Rule.isBody, Rule.isNs, Rule.isCharset, Rule.isImport]) (by simp [Rule.isNs])
+    exact good_liftAdd t0 t0 _ _ hc rfl (by simp [Rule.isImport]) (by simp [Rule.isBody, Rule.isNs, Rule.isCharset, Rule.isImport]) (by simp [Rule.isNs])
   | style i us =>
     simp only [step, Rule.sum]
-    exact good_liftAdd t0 t0 _ _ hc rfl rfl (by simp [Rule.isImport]) (by simp [Rule.isBody, Rule.isNs, Rule.isCharset, Rule.isImport]) (by simp [Rule.isNs])
+    exact good_liftAdd t0 t0 _ _ hc rfl (by simp [Rule.isImport]) (by simp [Rule.isBody, Rule.isNs, Rule.isCharset, Rule.isImport]) (by simp [Rule.isNs])
   | block k i =>
     simp only [step, Rule.sum]
-    exact good_liftAdd t0 t0 _ _ hc rfl rfl (by simp [Rule.isImport]) (by simp [Rule.isBody, Rule.isNs, Rule.isCharset, Rule.isImport]) (by simp [Rule.isNs])
+    exact good_liftAdd t0 t0 _ _ hc rfl (by simp [Rule.isImport]) (by simp [Rule.isBody, Rule.isNs, Rule.isCharset, Rule.isImport]) (by simp [Rule.isNs])
   | imp i q tg =>
     cases tg with
     | none =>
       simp only [step, Rule.sum]
-      exact good_liftAdd t0 t0 _ _ hc rfl rfl (by simp [Rule.isImport]) (by simp [Rule.isBody, Rule.isImport]) (by simp [Rule.isNs])
+      exact good_liftAdd t0 t0 _ _ hc rfl (by simp [Rule.isImport]) (by simp [Rule.isBody, Rule.isImport]) (by simp [Rule.isNs])
     | some sub =>
       have hsub := hrec i q sub rfl
       -- the START comment
@@ -458,22 +459,20 @@ theorem step_good (rec : Sheet → Res) (t0 : Sheet) (r : Rule) (hc : hasCharset
           Good (liftAdd (add (t0 ++ [Rule.start i]) (.imp i q (some sub)))) t0 (Rule.imp i q (some sub)).sum := by
         intro hk
         simp only [Rule.sum, hk, if_true]
-        exact good_liftAdd t0 _ _ _ hc1 rfl rfl (by simp [hi1, Rule.isImport])
+        exact good_liftAdd t0 _ _ _ hc1 rfl (by simp [hi1, Rule.isImport])
           (by simp [hb1, Rule.isBody, Rule.isImport]) (by simp [hn1, Rule.isNs])
       simp only [step, add_start]
       cases hres : rec sub with
       | raised e =>
         rw [hres] at hsub
         cases e with
-        | hierarchy =>
-          simp only [Good] at hsub
-          exact keep (by simp [Sum.keptAs, hsub])
+        | hierarchy => simp [Good] at hsub        -- the nested call never raises it: the `except` branch is dead
         | noModification => simp [Good]
         | fuel => simp [Good] at hsub
       | ok imported =>
         rw [hres] at hsub
         simp only [Good, imports, body, hasNs, List.filter_nil, List.any_nil, List.nil_append, Bool.false_or] at hsub
-        obtain ⟨s1, s2, s3, s4, s5⟩ := hsub
+        obtain ⟨s2, s3, s4, s5⟩ := hsub
         have s2' : imports imported = (sumL sub).imps := s2
         have s3' : body imported = (sumL sub).body := s3
         have s4' : hasNs imported = (sumL sub).ns := s4
@@ -481,20 +480,20 @@ theorem step_good (rec : Sheet → Res) (t0 : Sheet) (r : Rule) (hc : hasCharset
         by_cases hq : q = 0
         · -- media `all`: every rule of the imported flat sheet goes to the target
           subst hq
-          have hk : (sumL sub).keptAs 0 = false := by simp [Sum.keptAs, s1]
+          have hk : (sumL sub).keptAs 0 = false := by simp [Sum.keptAs]
           simp only [Rule.sum, hk, if_true, Bool.false_eq_true, if_false]
           cases hall : addAll (t0 ++ [Rule.start i]) imported with
           | none => simp [liftAdd, Good]
           | some t2 =>
             obtain ⟨b1, b2, b3, b4⟩ := addAll_spec imported _ t2 hall
             simp only [liftAdd, Good]
-            refine ⟨trivial, ?_, ?_, ?_, ?_⟩
+            refine ⟨?_, ?_, ?_, ?_⟩
             · rw [b1, hi1, s2']
             · rw [b2, hb1, s3']; simp
             · rw [b3, hn1, s4']
             · rw [b4 s5, hc1]
         · have hhard : hasHard imported = (sumL sub).hard := by
-            rw [hasHard_eq, s5, s4', s3']; simp [Sum.hard]
+            rw [hasHard_eq, s5, s4', s3', s2']; simp [Sum.hard]
           simp only [hq, if_false]
           have hhard' : (imported.any fun x => !x.canWrap) = (sumL sub).hard := hhard
           rw [hhard']
@@ -504,24 +503,20 @@ theorem step_good (rec : Sheet → Res) (t0 : Sheet) (r : Rule) (hc : hasCharset
             exact keep (by simp [Sum.keptAs, hh, hq])
           | false =>
             simp only [Bool.false_eq_true, if_false]
-            have hk : (sumL sub).keptAs q = false := by simp [Sum.keptAs, s1, hh]
-            obtain ⟨f1, f2⟩ := forbids_of_canWrap imported (by rw [hhard, hh])
+            have hk : (sumL sub).keptAs q = false := by simp [Sum.keptAs, hh]
+            obtain ⟨f1, f2, f3⟩ := forbids_of_canWrap imported (by rw [hhard, hh])
             simp only [Rule.sum, hk, hq, if_false, Bool.false_eq_true]
             cases hw : wrapAll [] imported with
             | none =>
+              -- `CSSMediaRule.add` refuses none of the rules that passed the check
               have := wrapAll_none imported [] hw
-              rw [f1, s2'] at this
-              simp only [Good]; exact this
+              rw [f1] at this
+              simp at this
             | some kids =>
-              obtain ⟨w1, w2⟩ := wrapAll_some imported [] kids hw
-              rw [f1, s2'] at w2
-              have himp : imports imported = [] := by
-                rw [s2']; cases h : (sumL sub).imps with
-                | nil => rfl
-                | cons a l => rw [h] at w2; simp at w2
-              have hkids : kids = (sumL sub).body := by rw [w1, List.nil_append, ← f2 himp, s3']
+              obtain ⟨w1, _⟩ := wrapAll_some imported [] kids hw
+              have hkids : kids = (sumL sub).body := by rw [w1, List.nil_append, ← f3, s3']
               simp only []
-              refine good_liftAdd t0 _ _ _ hc1 rfl (by simpa using w2) ?_ ?_ ?_
+              refine good_liftAdd t0 _ _ _ hc1 rfl ?_ ?_ ?_
               · simp [hi1, Rule.isImport]
               · simp [hb1, hkids, Rule.isBody, Rule.isImport, Rule.isNs, Rule.isCharset]
               · simp [hn1, Rule.isNs]
@@ -542,29 +537,29 @@ theorem run_good (rec : Sheet → Res) : ∀ (s t0 : Sheet), hasCharset t0 = fal
     | ok t1 =>
       rw [hst] at hs
       simp only [Good] at hs
-      obtain ⟨f1, f2, f3, f4, f5⟩ := hs
+      obtain ⟨f2, f3, f4, f5⟩ := hs
       have ih := run_good rec rs t1 f5 (fun r' hr' => hrec r' (by simp [hr']))
       simp only []
       cases hrun : run rec rs t1 with
       | ok t =>
         rw [hrun] at ih
         simp only [Good] at ih ⊢
-        obtain ⟨g1, g2, g3, g4, g5⟩ := ih
-        refine ⟨by simp [Sum.app, f1, g1], ?_, ?_, ?_, g5⟩
+        obtain ⟨g2, g3, g4, g5⟩ := ih
+        refine ⟨?_, ?_, ?_, g5⟩
         · rw [g2, f2]; simp [Sum.app]
         · rw [g3, f3]; simp [Sum.app]
         · rw [g4, f4]; simp [Sum.app, Bool.or_assoc]
       | raised e =>
         rw [hrun] at ih
         cases e with
-        | hierarchy => simp only [Good] at ih ⊢; simp [Sum.app, ih]
+        | hierarchy => simp [Good] at ih
         | noModification => simp [Good]
         | fuel => simp [Good] at ih
     | raised e =>
       rw [hst] at hs
       simp only []
       cases e with
-      | hierarchy => simp only [Good] at hs ⊢; simp [Sum.app, hs]
+      | hierarchy => simp [Good] at hs
       | noModification => simp [Good]
       | fuel => simp [Good] at hs
 
@@ -644,20 +639,21 @@ theorem resolve_fuel (s : Sheet) : ∀ (fuel : Nat), heightL s ≤ fuel → reso
 def flatBody (s : Sheet) : List Rule := (sumL s).body
 /-- the @import rules of the flat sheet, in order -/
 def flatImports (s : Sheet) : List Rule := (sumL s).imps
-/-- HierarchyRequestErr leaves `resolveImports(s)` -/
-def raisesHierarchy (s : Sheet) : Bool := (sumL s).raises
 /-- this loaded @import stays an @import rule of the flat sheet -/
 def kept (q : Nat) (sub : Sheet) : Bool := (sumL sub).keptAs q
-/-- the flat sheet of `s` holds a rule that is not a comment, style rule or @import -/
+/-- the flat sheet of `s` holds a rule that is not a comment or style rule (an @namespace rule, an
+@import rule that was left, or such a body rule) -/
 def flatHard (s : Sheet) : Bool := (sumL s).hard
 
 def Rule.isUnloaded : Rule → Bool | .imp _ _ none => true | _ => false
 def Rule.isLoaded : Rule → Bool | .imp _ _ (some _) => true | _ => false
 
-theorem kept_iff (q : Nat) (sub : Sheet) :
-    kept q sub = (raisesHierarchy sub || (q != 0 && flatHard sub)) := rfl
+theorem kept_iff (q : Nat) (sub : Sheet) : kept q sub = (q != 0 && flatHard sub) := rfl
 
-theorem flatHard_eq (s : Sheet) : flatHard s = ((sumL s).ns || (flatBody s).any (fun x => !x.canWrap)) := rfl
+theorem flatHard_eq (s : Sheet) :
+    flatHard s = ((sumL s).ns || !(flatImports s).isEmpty || (flatBody s).any (fun x => !x.canWrap)) := rfl
+
+theorem kept_zero (sub : Sheet) : kept 0 sub = false := rfl
 
 theorem sumL_append : ∀ (a b : Sheet), sumL (a ++ b) = (sumL a).app (sumL b)
   | [], b => by simp [sumL_nil, Sum.nil, Sum.app]
@@ -670,8 +666,6 @@ theorem flatBody_append (a b : Sheet) : flatBody (a ++ b) = flatBody a ++ flatBo
   simp [flatBody, sumL_append, Sum.app]
 theorem flatImports_append (a b : Sheet) : flatImports (a ++ b) = flatImports a ++ flatImports b := by
   simp [flatImports, sumL_append, Sum.app]
-theorem raisesHierarchy_append (a b : Sheet) : raisesHierarchy (a ++ b) = (raisesHierarchy a || raisesHierarchy b) := by
-  simp [raisesHierarchy, sumL_append, Sum.app]
 
 /-- document order: a body rule stays where it is, @charset / @namespace / unloaded @import contribute
 nothing to the body, a loaded @import is replaced by its START comment followed by — nothing if it is
@@ -694,7 +688,7 @@ theorem flatBody_cons (r : Rule) (rs : Sheet) : flatBody (r :: rs) =
   | _ => simp [flatBody, sumL_cons, Sum.app, Rule.sum, Sum.nil]
 
 /-- an unloaded @import stays; a loaded one stays if kept, hands up the @imports of its flat sheet if
-its media is `all`, and has none to hand up otherwise (a flat sheet with an @import cannot be wrapped) -/
+its media is `all`, and has none to hand up otherwise (with an @import in its flat sheet it is kept) -/
 theorem flatImports_cons (r : Rule) (rs : Sheet) : flatImports (r :: rs) =
     (match r with
      | .imp i q none => [.imp i q none]
@@ -712,39 +706,22 @@ theorem flatImports_cons (r : Rule) (rs : Sheet) : flatImports (r :: rs) =
       · by_cases hk : (sumL sub).keptAs q = true <;> simp [flatImports, sumL_cons, Sum.app, Rule.sum, kept, hk, hq]
   | _ => simp [flatImports, sumL_cons, Sum.app, Rule.sum, Sum.nil]
 
-/-- HierarchyRequestErr: some media-restricted loaded @import that is not kept has a flat sheet with an @import rule -/
-theorem raisesHierarchy_cons (r : Rule) (rs : Sheet) : raisesHierarchy (r :: rs) =
-    ((match r with
-      | .imp _ q (some sub) => !kept q sub && q != 0 && !(flatImports sub).isEmpty
-      | _ => false) || raisesHierarchy rs) := by
-  cases r with
-  | imp i q tg =>
-    cases tg with
-    | none => simp [raisesHierarchy, sumL_cons, Sum.app, Rule.sum]
-    | some sub =>
-      by_cases hq : q = 0
-      · subst hq
-        by_cases hk : (sumL sub).keptAs 0 = true <;> simp [raisesHierarchy, flatImports, sumL_cons, Sum.app, Rule.sum, kept, hk]
-      · have hq' : (q != 0) = true := by simpa using hq
-        by_cases hk : (sumL sub).keptAs q = true <;>
-          simp [raisesHierarchy, flatImports, sumL_cons, Sum.app, Rule.sum, kept, hk, hq, hq']
-  | _ => simp [raisesHierarchy, sumL_cons, Sum.app, Rule.sum, Sum.nil]
-
 /-! ### the outcome of `resolveImports` -/
 
 theorem resolve_ok (s t : Sheet) (h : resolveImports s = .ok t) :
-    raisesHierarchy s = false ∧ imports t = flatImports s ∧ body t = flatBody s ∧
-    hasNs t = (sumL s).ns ∧ hasCharset t = false := by
+    imports t = flatImports s ∧ body t = flatBody s ∧ hasNs t = (sumL s).ns ∧ hasCharset t = false := by
   have := resolve_good (heightL s) s (Nat.le_refl _)
   unfold resolveImports at h
   rw [h] at this
-  simpa [Good, imports, body, hasNs, raisesHierarchy, flatImports, flatBody] using this
+  simpa [Good, imports, body, hasNs, flatImports, flatBody] using this
 
-theorem resolve_hierarchy (s : Sheet) (h : resolveImports s = .raised .hierarchy) : raisesHierarchy s = true := by
+/-- HierarchyRequestErr never leaves `resolveImports` -/
+theorem resolve_hierarchy_never (s : Sheet) : resolveImports s ≠ .raised .hierarchy := by
+  intro h
   have := resolve_good (heightL s) s (Nat.le_refl _)
   unfold resolveImports at h
   rw [h] at this
-  simpa [Good, raisesHierarchy] using this
+  simp [Good] at this
 
 theorem resolve_fuel_never (s : Sheet) : resolveImports s ≠ .raised .fuel := by
   intro h
@@ -816,7 +793,7 @@ end
 
 mutual
 theorem Rule.plain_sum : ∀ (r : Rule), r.plain = true →
-    r.sum = ⟨false, [], false, r.expand⟩ ∧ r.expand.all Rule.canWrap = true
+    r.sum = ⟨[], false, r.expand⟩ ∧ r.expand.all Rule.canWrap = true
   | .charset _, _ => by simp [Rule.sum, Sum.nil, Rule.expand]
   | .comment _, _ => by simp [Rule.sum, Rule.expand, Rule.canWrap]
   | .start _, _ => by simp [Rule.sum, Rule.expand, Rule.canWrap]
@@ -826,7 +803,7 @@ theorem Rule.plain_sum : ∀ (r : Rule), r.plain = true →
     obtain ⟨hq, hp⟩ := h
     subst hq
     obtain ⟨h1, h2⟩ := plainL_sum sub hp
-    have hk : (sumL sub).keptAs 0 = false := by rw [h1]; simp [Sum.keptAs]
+    have hk : (sumL sub).keptAs 0 = false := by simp [Sum.keptAs]
     simp only [Rule.sum, hk, Rule.expand, if_true, Bool.false_eq_true, if_false]
     rw [h1]
     simp [Rule.canWrap, h2]
@@ -835,7 +812,7 @@ theorem Rule.plain_sum : ∀ (r : Rule), r.plain = true →
   | .media _ _, h => by simp [Rule.plain] at h
   | .block _ _, h => by simp [Rule.plain] at h
 theorem plainL_sum : ∀ (s : Sheet), plainL s = true →
-    sumL s = ⟨false, [], false, expandL s⟩ ∧ (expandL s).all Rule.canWrap = true
+    sumL s = ⟨[], false, expandL s⟩ ∧ (expandL s).all Rule.canWrap = true
   | [], _ => by simp [sumL, Sum.nil, expandL]
   | r :: rs, h => by
     simp only [plainL, Bool.and_eq_true] at h
@@ -856,14 +833,14 @@ theorem any_not_canWrap_of_all (l : List Rule) (h : l.all Rule.canWrap = true) :
 
 mutual
 theorem Rule.inlinable_sum : ∀ (r : Rule), r.inlinable = true →
-    r.sum.raises = false ∧ r.sum.body = r.expand ∧ r.sum.imps.all Rule.isUnloaded = true
+    r.sum.body = r.expand ∧ r.sum.imps.all Rule.isUnloaded = true
   | .imp i q (some sub), h => by
     simp only [Rule.inlinable, Bool.and_eq_true, Bool.or_eq_true, beq_iff_eq] at h
     obtain ⟨hi, hq⟩ := h
-    obtain ⟨h1, h2, h3⟩ := inlinableL_sum sub hi
+    obtain ⟨h2, h3⟩ := inlinableL_sum sub hi
     by_cases hq0 : q = 0
     · subst hq0
-      have hk : (sumL sub).keptAs 0 = false := by simp [Sum.keptAs, h1]
+      have hk : (sumL sub).keptAs 0 = false := by simp [Sum.keptAs]
       simp [Rule.sum, hk, Rule.expand, h2, h3]
     · have hp := hq.resolve_left hq0
       obtain ⟨p1, p2⟩ := plainL_sum sub hp
@@ -880,13 +857,13 @@ theorem Rule.inlinable_sum : ∀ (r : Rule), r.inlinable = true →
   | .style _ _, _ => by simp [Rule.sum, Rule.expand]
   | .block _ _, _ => by simp [Rule.sum, Rule.expand]
 theorem inlinableL_sum : ∀ (s : Sheet), inlinableL s = true →
-    (sumL s).raises = false ∧ (sumL s).body = expandL s ∧ (sumL s).imps.all Rule.isUnloaded = true
+    (sumL s).body = expandL s ∧ (sumL s).imps.all Rule.isUnloaded = true
   | [], _ => by simp [sumL, Sum.nil, expandL]
   | r :: rs, h => by
     simp only [inlinableL, Bool.and_eq_true] at h
-    obtain ⟨h1, h2, h3⟩ := Rule.inlinable_sum r h.1
-    obtain ⟨h4, h5, h6⟩ := inlinableL_sum rs h.2
-    simp [sumL, expandL, Sum.app, h1, h2, h4, h5, List.all_append, h3, h6]
+    obtain ⟨h2, h3⟩ := Rule.inlinable_sum r h.1
+    obtain ⟨h5, h6⟩ := inlinableL_sum rs h.2
+    simp [sumL, expandL, Sum.app, h2, h5, List.all_append, h3, h6]
 end
 
 end CssVerif.Resolve
